@@ -6,6 +6,16 @@
 
 const char* vh_property = "C01";
 
+#ifndef C01_THREADS
+#define C01_THREADS 0
+#endif
+/* thread count of a case: 1 on the OpenMP-free leg; on the libgomp leg 2, 3 or 8 depending on the case id */
+static int threads_of(uint64_t id)
+{
+        static const int T[3] = {2, 3, 8};
+        return C01_THREADS ? T[id % 3] : 1;
+}
+
 struct family { const char* alpha; int k; int L; int protein; };
 
 static const struct family FAM_QUICK[] = {
@@ -157,7 +167,7 @@ int vh_case(uint64_t id, int tier)
         if(c.fmt == 0){
                 char** rows = NULL;
                 int alnlen = 0;
-                rc = kx_kalign_arr(&c.in, 1, c.type, gp[0], gp[1], gp[2], &rows, &alnlen);
+                rc = kx_kalign_arr(&c.in, threads_of(id), c.type, gp[0], gp[1], gp[2], &rows, &alnlen);
                 if(ne < 2){
                         if(rc == OK){
                                 vh_fail("sem:accepted-fewer-than-two", "kalign() returned OK for %d non-empty sequences", ne);
@@ -192,7 +202,7 @@ int vh_case(uint64_t id, int tier)
                 free(txt);
                 rc = kalign_read_input((char*)inpath, &m, 1);
                 if(rc == OK && m){
-                        rc = kalign_run(m, 1, c.type, gp[0], gp[1], gp[2]);
+                        rc = kalign_run(m, threads_of(id), c.type, gp[0], gp[1], gp[2]);
                 }else if(rc == OK){
                         rc = FAIL;
                 }
